@@ -47,7 +47,13 @@ Inductive fs_op :=
 | WriteIfAbsent (p : path) (t : N)      (* if not p.exists(): write *)
 | Remove (p : path)                     (* os.remove / source of os.rename *)
 | Mkdirs (p : path)                     (* os.makedirs(p, exist_ok=True) / Path.mkdir(parents=True, exist_ok=True) *)
-| Rmtree (p : path).                    (* shutil.rmtree(p) when p exists *)
+| Rmtree (p : path)                     (* shutil.rmtree(p) when p exists *)
+| Stash (p : path)                      (* saved = p.read_bytes() if p.exists() else None *)
+| Unstash (p : path).                   (* if saved is not None: p.write_bytes(saved) *)
+
+(* the Python local variable that carries the saved bytes: a slot that is no directory entry
+   (the empty path lies below no non-empty root) *)
+Definition mem_slot : path := [].
 
 Definition mkdir1 (s : fs) (q : path) : fs := if exists_b s q then s else s ++ [(q, Dir)].
 Definition apply_op (s : fs) (op : fs_op) : fs :=
@@ -57,6 +63,16 @@ Definition apply_op (s : fs) (op : fs_op) : fs :=
   | Remove p => filter (fun kv => negb (path_eqb (fst kv) p)) s
   | Mkdirs p => fold_left mkdir1 (prefixes p) s
   | Rmtree p => filter (fun kv => negb (under p (fst kv))) s
+  | Stash p =>
+      match lookup p s with
+      | Some e => set s mem_slot e
+      | None => filter (fun kv => negb (path_eqb (fst kv) mem_slot)) s
+      end
+  | Unstash p =>
+      match lookup mem_slot s with
+      | Some e => set (filter (fun kv => negb (path_eqb (fst kv) mem_slot)) s) p e
+      | None => s
+      end
   end.
 
 (* what the audit hook sees (directory creation is compared through the final tree instead) *)
@@ -68,6 +84,8 @@ Definition op_events (s : fs) (op : fs_op) : list (kind * path) :=
   | Remove p => [(D, p)]
   | Mkdirs _ => []
   | Rmtree p => if exists_b s p then [(D, p)] else []
+  | Stash _ => []
+  | Unstash p => if exists_b s mem_slot then [(W, p)] else []
   end.
 (* every path created, rewritten or removed by the operation *)
 Definition op_touched (s : fs) (op : fs_op) : list path :=
@@ -77,6 +95,8 @@ Definition op_touched (s : fs) (op : fs_op) : list path :=
   | Remove p => [p]
   | Mkdirs p => filter (fun q => negb (exists_b s q)) (prefixes p)
   | Rmtree p => map fst (filter (fun kv => under p (fst kv)) s)
+  | Stash _ => []
+  | Unstash p => if exists_b s mem_slot then [p] else []
   end.
 
 Definition rebase (b : path) (op : fs_op) : fs_op :=
@@ -86,6 +106,8 @@ Definition rebase (b : path) (op : fs_op) : fs_op :=
   | Remove p => Remove (b ++ p)
   | Mkdirs p => Mkdirs (b ++ p)
   | Rmtree p => Rmtree (b ++ p)
+  | Stash p => Stash (b ++ p)
+  | Unstash p => Unstash (b ++ p)
   end.
 
 (* ---------- configuration of one generate call ---------- *)
@@ -300,7 +322,8 @@ Definition io_cut (name : str) (s : fs) (op : fs_op) : option (list fs_op) :=
       | Some q => Some [Mkdirs (removelast q)]
       | None => None
       end
-  | Remove _ | Rmtree _ => None
+  | Unstash p => if exists_b s mem_slot && base_matches name p then Some [] else None
+  | Remove _ | Rmtree _ | Stash _ => None
   end.
 (* (ModelsEmitter._generate_model_file logs the exception and re-raises it.) *)
 Record io_result := { io_ops : list (stage * fs_op); io_hit : option stage }.
